@@ -192,6 +192,25 @@ func zzC11_cer() {
 			vAssert(len(ab) == 6 && ab[2] == 192 && ab[3] == 0 && ab[4] == 2 && ab[5] == 77, "the local endpoint's address")
 		}
 	}
+	if variant == 3 {
+		// a second peer on another connection of the same state machine, with another local endpoint:
+		// its CEA carries *its* connection's address (accepted or rejected CER alike)
+		c2 := &zzConn{local: "192.0.2.88:3868"}
+		st.ServeDIAM(c2, zzSecondCER(zzFlag("secondAccepted")))
+		vAssert(len(c2.written) == 1, "the second peer is answered")
+		if len(c2.written) == 1 {
+			cea2, e2 := diam.ReadMessage(&zzReader{b: c2.written[0]}, dict.Default)
+			vAssert(e2 == nil, "the second CEA is well-formed")
+			if e2 == nil {
+				a2, e3 := cea2.FindAVPs(avp.HostIPAddress, 0)
+				vAssert(e3 == nil && len(a2) == 1, "one host address on the second CEA")
+				if e3 == nil && len(a2) == 1 {
+					ab := a2[0].Data.Serialize()
+					vAssert(len(ab) == 6 && ab[2] == 192 && ab[3] == 0 && ab[4] == 2 && ab[5] == 88, "every CEA carries an address of its own connection's local endpoint when none is configured")
+				}
+			}
+		}
+	}
 	meta, hasMeta := smpeer.FromContext(c.Context())
 	if accept {
 		vAssert(c.closed == 0, "connection stays open after a successful exchange")
@@ -262,4 +281,19 @@ func zzAdvertises(cea *diam.Message, id uint32) bool {
 		}
 	}
 	return false
+}
+
+func zzSecondCER(acceptable bool) *diam.Message {
+	m := diam.NewRequest(diam.CapabilitiesExchange, 0, dict.Default)
+	m.NewAVP(avp.OriginHost, avp.Mbit, 0, datatype.DiameterIdentity("peer2.example"))
+	m.NewAVP(avp.OriginRealm, avp.Mbit, 0, datatype.DiameterIdentity("peers"))
+	m.NewAVP(avp.HostIPAddress, avp.Mbit, 0, datatype.Address([]byte{10, 0, 0, 2}))
+	m.NewAVP(avp.VendorID, avp.Mbit, 0, datatype.Unsigned32(99))
+	m.NewAVP(avp.ProductName, 0, 0, datatype.UTF8String("peer"))
+	id := uint32(4)
+	if !acceptable {
+		id = 7777
+	}
+	m.NewAVP(avp.AuthApplicationID, avp.Mbit, 0, datatype.Unsigned32(id))
+	return m
 }
